@@ -78,6 +78,19 @@ CHECKS = {
              "EFDD/FSDD classes (SD_est replaced by the analytic matrix); MAC >= 0.999, 2.5 % frequency and 15 % damping accuracy and 1e-8 invariance "
              "under Sy -> c*Sy are asserted.",
         ref="3/C07"),
+    "C05": dict(
+        technique="runtime monitoring: ground-truth oracle on pLSCF coefficients/poles for exact matrix fractions + per-call postconditions on rmfd2ac / pLSCF_poles",
+        text="Exploration: exactly rational spectra B(z)A(z)^-1 are given to pLSCF; the order-n coefficients must equal the normalised true ones and column "
+             "n-1 of the pole tables the stable roots of det A from an independent generalised eigenproblem, everything else NaN; the same root/column "
+             "postconditions fire on every rmfd2ac / pLSCF_poles call, also while pLSCF.run processes noisy data.",
+        ref="3/C05"),
+    "C09": dict(
+        technique="runtime monitoring: probes at SSI_poles / pLSCF_poles capture the unfiltered solution of the same execution; every run() result judged cell by cell; fault injection for the conjugate criterion",
+        text="Exploration: for SSIcov, SSIdat, SSIcov_MS, SSIdat_MS, pLSCF, pLSCF_MS the filtered result tables are compared with the unfiltered tables captured "
+             "inside the same run: soundness and completeness per criterion with the oracle's own MPC/MPD/conjugate tests, adaptive thresholds at observed "
+             "quantiles so that every criterion rejects poles on its own, one NaN pattern across all tables, covariance criterion with calc_unc; the "
+             "conjugate criterion is exercised by blanking partners at the probe.",
+        ref="3/C09"),
 }
 
 PENDING_REASON = "check not built yet in this session (work in progress; the design in DESIGN.md section 3 applies)"
